@@ -351,6 +351,11 @@ func runOne(r *driver.Run) {
 			if !eqSets(got, want) {
 				r.Fail("sets", "Sets differs from the partition", "Sets() = %v, want %v", got, want)
 			}
+			for _, s := range got { // derived views belong to the caller: scribbling must not reach the structure
+				for i := range s {
+					s[i] = -5
+				}
+			}
 		case 5:
 			what = "SmallestRep()"
 			var got []int
@@ -383,6 +388,9 @@ func runOne(r *driver.Run) {
 			}
 			if len(got) != len(m.sets()) {
 				r.Fail("roots", "Roots is not one element per set", "Roots() = %v has %d entries, there are %d sets %v", got, len(got), len(m.sets()), m.sets())
+			}
+			for i := range got {
+				got[i] = -5
 			}
 		case 7:
 			what = "String()"
